@@ -23,6 +23,14 @@ CLAIMED = {
  'C10': ('bounded symbolic model checking: all subsets (as bit-vector variables, no enumeration) of enums with 1,3,8,9,17 (thorough: 33,64,65) enumerators in 8/16/32/64-bit words; '
          'set algebra of | & ^ ~ and assigning forms, depth-1 and depth-2 expressions, set/get/[]/init-list/null, ==, !=, hash, is_subset_eq against a set model; UNSAT = holds for every subset', '3 C10'),
 }
+CLAIMED.update({
+ 'C13': ('bounded symbolic model checking: all corner coordinates and the probe point symbolic over [-2^30,2^30) / [0,2^31), N=1,2,3, int and unsigned: membership, intersection, intersects (witness point), contains, '
+         'extend_bounding_box (superset and minimal against an arbitrary third box), corner_points, shrink/stretch_absolute, center, distance, comparison, builders', '3 C13'),
+ 'C14': ('bounded symbolic model checking over the ring Z/2^32 (all entries full-width symbolic, -fwrapv): component-wise agreement of every vector/dim/matrix operation with array references (sizes up to 4x4, static and view storage) '
+         'and the ring/module/determinant/adjugate laws through the real operators, decided by z3 after sum-of-monomials normalisation', '3 C14'),
+ 'C17': ('bounded symbolic model checking: every strong_typedef operator bit-for-bit against the underlying operator (full 32-bit range), reference/recursive/unique_ptr/shared_ptr transparency, and ==/!=/</hash coherence '
+         '(equivalence, strict weak order, congruence, equal => equal hash) on triples of fully symbolic values for 17 value types (grid/tree/raw_vector in the thorough tier)', '3 C17'),
+})
 NA = {}
 ALL = ['C%02d' % i for i in range(1, 21)]
 def main():
